@@ -63,11 +63,6 @@ package cty
 //@   frame_only
 //@   writes cty.tupleElementIterator it
 //
-//@ func (*cty.Type).UnmarshalJSON
-//@   tags C20
-//@   frame_only
-//@   writes cty.Type t
-//
 //@ func (*cty.unmarkTransformer).Enter
 //@   tags C20
 //@   frame_only
